@@ -377,14 +377,18 @@ type Transport struct {
 	KeepAlive bool
 	DoQ       bool
 	DNSCrypt  bool
+	// Stream transports (TCP, DoT) close the connection when nothing is written.
+	Stream bool
+	// HTTP transports report a non-answer as an HTTP error status.
+	HTTP bool
 }
 
 // The transports.
 var (
 	UDP         = Transport{Name: "udp", Datagram: true}
-	TCP         = Transport{Name: "tcp", KeepAlive: true}
-	DoT         = Transport{Name: "dot", Padding: true, KeepAlive: true}
-	DoH         = Transport{Name: "doh", Padding: true}
+	TCP         = Transport{Name: "tcp", KeepAlive: true, Stream: true}
+	DoT         = Transport{Name: "dot", Padding: true, KeepAlive: true, Stream: true}
+	DoH         = Transport{Name: "doh", Padding: true, HTTP: true}
 	DoQ         = Transport{Name: "doq", Padding: true, DoQ: true}
 	DNSCryptUDP = Transport{Name: "dnscrypt-udp", Datagram: true, DNSCrypt: true}
 	DNSCryptTCP = Transport{Name: "dnscrypt-tcp", DNSCrypt: true}
@@ -698,6 +702,110 @@ func CheckForeign(c *Case, got *dns.Msg) error {
 	}
 
 	return nil
+}
+
+// ---------------------------------------------------------------------------
+// judging what came back on one transport
+
+// Result is what came back on one transport for one input.
+type Result struct {
+	// Msgs are the DNS messages received (wire).
+	Msgs [][]byte
+	// Treatment is the non-DNS part of the outcome: "closed" (stream
+	// transports: connection closed by the server), "http-<code>",
+	// "doq-close-<code>", "".
+	Treatment string
+}
+
+// DoQProtocolError is the treatment string of a DoQ connection closed with
+// DOQ_PROTOCOL_ERROR (RFC 9250, 8.4: 0x2).
+const DoQProtocolError = "doq-close-2"
+
+// Frames splits a stream of 2-octet-length-prefixed messages.
+func Frames(b []byte) (msgs [][]byte, err error) {
+	for len(b) > 0 {
+		if len(b) < 2 {
+			return msgs, fmt.Errorf("dangling octet after %d frames", len(msgs))
+		}
+
+		l := int(binary.BigEndian.Uint16(b))
+		if len(b) < 2+l {
+			return msgs, fmt.Errorf("frame declares %d octets, %d follow", l, len(b)-2)
+		}
+
+		msgs = append(msgs, b[2:2+l])
+		b = b[2+l:]
+	}
+
+	return msgs, nil
+}
+
+// Judge compares what came back on tr with the documented treatment of c.
+// full is the canonical form of a complete (non-truncated) answer, "" if none.
+func Judge(tr Transport, c *Case, r Result, o CheckOpts) (full string, classes []string, err error) {
+	kind, want := c.Expect(tr)
+	classes = []string{tr.Name + ":" + ExpectNames[kind]}
+	if len(r.Msgs) > 1 {
+		return "", classes, fmt.Errorf("%d DNS messages came back for one input", len(r.Msgs))
+	}
+
+	var got *dns.Msg
+	if len(r.Msgs) == 1 {
+		got = &dns.Msg{}
+		if uerr := got.Unpack(r.Msgs[0]); uerr != nil {
+			return "", classes, fmt.Errorf("the response does not decode: %w: %x", uerr, r.Msgs[0])
+		}
+	}
+
+	switch kind {
+	case NoMessage:
+		if got != nil {
+			return "", classes, fmt.Errorf("a DNS message came back (%s) where none is documented: %v", r.Treatment, got)
+		}
+
+		switch {
+		case tr.DoQ:
+			if r.Treatment != DoQProtocolError {
+				return "", classes, fmt.Errorf("DoQ: want the connection closed with DOQ_PROTOCOL_ERROR, got %q", r.Treatment)
+			}
+		case tr.Stream:
+			if r.Treatment != "closed" {
+				return "", classes, fmt.Errorf("%s: nothing written and the connection left open (%q)", tr.Name, r.Treatment)
+			}
+		case tr.HTTP:
+			if !strings.HasPrefix(r.Treatment, "http-4") && !strings.HasPrefix(r.Treatment, "http-5") {
+				return "", classes, fmt.Errorf("DoH: want an HTTP error status, got %q", r.Treatment)
+			}
+		}
+
+		return "", classes, nil
+	case ReplyOrNone:
+		if got == nil {
+			classes = append(classes, tr.Name+":fallback-none")
+
+			return "", classes, nil
+		}
+
+		classes = append(classes, tr.Name+":fallback-servfail")
+
+		return "", classes, CheckServfailOrForeign(tr, c, want, got)
+	}
+
+	if got == nil {
+		return "", classes, fmt.Errorf("no DNS message came back (%s); the pipeline produced %v", r.Treatment, want)
+	}
+
+	if err = CheckReply(tr, c, want, got, c.Loose, o); err != nil {
+		return "", classes, err
+	}
+
+	if got.Truncated {
+		classes = append(classes, "truncated-on-"+tr.Name)
+
+		return "", classes, nil
+	}
+
+	return Canon(got), classes, nil
 }
 
 // ---------------------------------------------------------------------------
